@@ -291,7 +291,7 @@ def plan(tier: str) -> list[tuple]:
         for constrained in (False, True):
             n = 3 if cfg in fast else 2
             if tier == "thorough":
-                n = 4 if cfg == "mem" else 3
+                n = 4 if (cfg == "mem" and not constrained) else 3
             if cfg != "mem" and tier == "quick" and cfg in fast and constrained:
                 n = 2
             for first in kinds(constrained):
